@@ -62,9 +62,12 @@ def generate(ck, tier):
         vlib.tlc_ok(res4, "fifo rel+pr budget 2")
         ck.add_tlc(res4, "fifo/rel+pr budget2 (liveness + pairs)")
         mixed += [s for s in sc.schedules_from(p4) if len(s) == 2]
+    global WINDOW_SCHEDS
+    WINDOW_SCHEDS = sc.gen_window_schedules(ck, tier)
     return singles, pairs, mixed, res["finished"]
 
 
+WINDOW_SCHEDS = []
 TSN_SPACES = [None, {"init_tsn_a": WRAP_A, "init_tsn_b": 7000}, {"init_tsn_a": 1000, "init_tsn_b": 500000},
               {"init_tsn_a": 500000, "init_tsn_b": 1000}, {"init_tsn_a": WRAP_A, "init_tsn_b": WRAP_B}]
 
@@ -136,6 +139,8 @@ def build_scenarios(singles, pairs, mixed, tier):
     for i, f in enumerate(chosen_x):
         scen.append(sc.scenario(f"x{i:04d}", stretch(f, rng.choice([1, 2, 3, 4]), rng.choice([1, 2, 3])), [sc.chan(1)],
                                 window_workload(rng), cfg={"init_tsn_a": WRAP_A - 5} if i % 4 == 0 else None))
+    # a closing / closed receive window with delayed or late-duplicated SACKs (stale zero-window SACK)
+    scen += sc.window_scenarios(WINDOW_SCHEDS, rng, limit=40 if tier == "quick" else 400, seed=vlib.seed() + 31)
     for i, f in enumerate([[]] + mixed):
         chans, msgs = mixed_workload(rng, i)
         scen.append(sc.scenario(f"m{i:03d}", f, chans, msgs, cfg=TSN_SPACES[i % len(TSN_SPACES)]))
@@ -207,6 +212,15 @@ def selftest():
                     constraint="DevBound", timeout=300)
     ok1 = any("OpenOnce" in e for e in res["errors"])
     print("selftest: SetupOverwrite model violates OpenOnce:", ok1)
+    for dev, msgs, budget in (("AdvPointWrongSpace", "MsgsTwoCh3", 1), ("FwdPlainCompare", "MsgsTwoCh3", 1),
+                              ("FwdNotRetransmitted", "MsgsPR2", 2)):
+        pass
+    r = sc.tlc_mc(ck, "dev_stale", mode="fifo", budget=2, fair=True, msgs="MsgsA22", init_a="{14}", init_b="{0}", win=3, rwnd=2,
+                  action_constraint="WindowFaults", deviations='{"StaleSackUpdatesRwnd"}', invariants=[],
+                  properties=["EventuallyDelivered"], timeout=900)
+    okd = any("EventuallyDelivered" in e for e in r["errors"])
+    print("selftest: StaleSackUpdatesRwnd model violates EventuallyDelivered:", okd)
+    ok1 = ok1 and okd
     for dev, msgs, budget in (("AdvPointWrongSpace", "MsgsTwoCh3", 1), ("FwdPlainCompare", "MsgsTwoCh3", 1),
                               ("FwdNotRetransmitted", "MsgsPR2", 2)):
         r = sc.tlc_mc(ck, "dev_" + dev, mode="fifo", budget=budget, fair=True, chans="ChansPR", msgs=msgs, init_a="{14}",
